@@ -48,9 +48,9 @@ def lJ {α} (f : α → Json) (l : List α) : Json := Json.arr (l.map f).toArray
 def kindOf (j : Json) : Except String Cfg :=
   match j with
   | Json.null => pure Gen.Fsys.cfg
-  | Json.str "stringPrefix" => pure ⟨.stringPrefix, false⟩
-  | Json.str "sepTerminated" => pure ⟨.sepTerminated, false⟩
-  | Json.str "sepTerminated+fold" => pure ⟨.sepTerminated, true⟩
+  | Json.str "stringPrefix" => pure ⟨.stringPrefix, false, false⟩
+  | Json.str "sepTerminated" => pure ⟨.sepTerminated, false, false⟩
+  | Json.str "sepTerminated+fold" => pure ⟨.sepTerminated, true, false⟩
   | _ => throw "kind?"
 
 def treeOf (j : Json) : Except String Tree := do
